@@ -584,6 +584,15 @@ Linear_Expression_Impl<Row>
                  Coefficient_traits::const_reference c1,
                  Coefficient_traits::const_reference c2,
                  dimension_type start, dimension_type end) {
+  if (static_cast<const void*>(&y) == static_cast<const void*>(this)) {
+    // `y' is an alias of `*this': the row-level combination would read
+    // coefficients it has already overwritten.
+    PPL_DIRTY_TEMP_COEFFICIENT(c);
+    c = c1;
+    c += c2;
+    mul_assign(c, start, end);
+    return;
+  }
   Parma_Polyhedra_Library::linear_combine(row, y.row, c1, c2, start, end);
   PPL_ASSERT(OK());
 }
